@@ -341,9 +341,10 @@ func bitsEqual(x, y []byte, bits int) bool {
 // (both reach the same IPv4 destination); an IPv6 network contains IPv6
 // addresses. A network written in IPv4-mapped notation (::ffff:a.b.c.d/n,
 // n >= 96) contains the IPv4-mapped addresses in it — the very same IPv6
-// addresses —; whether it also covers the native IPv4 spelling is left open
-// (not demanded).
-func (r refRule) netContains(a addr) bool {
+// addresses —; whether it also covers the native IPv4 spelling is left open:
+// wide=false says no, wide=true says yes, and the oracle only judges what
+// holds under both readings.
+func (r refRule) netContains(a addr, wide bool) bool {
 	rb, rbits, r4 := r.base, r.bits, r.base.fam4
 	mappedRule := false
 	if !r4 {
@@ -352,7 +353,7 @@ func (r refRule) netContains(a addr) bool {
 		}
 	}
 	if q, ok := a.v4part(); ok {
-		if !r4 || (mappedRule && a.fam4) {
+		if !r4 || (mappedRule && a.fam4 && !wide) {
 			return false
 		}
 		return bitsEqual(rb.b[12:], q[:], rbits)
@@ -363,7 +364,7 @@ func (r refRule) netContains(a addr) bool {
 	return bitsEqual(rb.b[:], a.b[:], rbits)
 }
 
-func (r refRule) matches(host string, addrs []addr) bool {
+func (r refRule) matches(host string, addrs []addr, wide bool) bool {
 	switch r.kind {
 	case ruleAny:
 		return host != ""
@@ -388,7 +389,7 @@ func (r refRule) matches(host string, addrs []addr) bool {
 		return true
 	case ruleNet:
 		for _, a := range addrs {
-			if r.netContains(a) {
+			if r.netContains(a, wide) {
 				return true
 			}
 		}
@@ -409,9 +410,9 @@ func (r refRule) mappedNotation() bool {
 // rule that matches is written in IPv4-mapped notation (reported under one key).
 const reasonDenyMapped = "deny-rule-in-mapped-notation"
 
-func anyMatch(rules []refRule, host string, addrs []addr) bool {
+func anyMatch(rules []refRule, host string, addrs []addr, wide bool) bool {
 	for _, r := range rules {
-		if r.matches(host, addrs) {
+		if r.matches(host, addrs, wide) {
 			return true
 		}
 	}
@@ -421,6 +422,7 @@ func anyMatch(rules []refRule, host string, addrs []addr) bool {
 // ---- policy ----------------------------------------------------------------
 
 type refPolicy struct {
+	mapped                       bool // some rule is written in IPv4-mapped notation
 	httpsOnly, redirects, rebind bool
 	allow, deny                  []refRule
 }
@@ -429,7 +431,7 @@ type refPolicy struct {
 // the first clause of the statement that forbids it. addrs is what the host
 // resolves to at the time of the check (the literal itself for IP literals;
 // empty when the resolver fails or answers nothing).
-func (p *refPolicy) decide(scheme, host string, addrs []addr) string {
+func (p *refPolicy) decide(scheme, host string, addrs []addr, wide bool) string {
 	if scheme != "http" && scheme != "https" {
 		return "scheme"
 	}
@@ -448,7 +450,7 @@ func (p *refPolicy) decide(scheme, host string, addrs []addr) string {
 	}
 	denied, onlyMappedNotation := false, true
 	for _, r := range p.deny {
-		if r.matches(host, addrs) {
+		if r.matches(host, addrs, wide) {
 			denied = true
 			if !r.mappedNotation() {
 				onlyMappedNotation = false
@@ -461,8 +463,43 @@ func (p *refPolicy) decide(scheme, host string, addrs []addr) string {
 		}
 		return "deny"
 	}
-	if len(p.allow) > 0 && !anyMatch(p.allow, host, addrs) {
+	if len(p.allow) > 0 && !anyMatch(p.allow, host, addrs, wide) {
 		return "allowlist"
 	}
 	return ""
+}
+
+func (p *refPolicy) hasMappedRule() bool {
+	for _, r := range p.allow {
+		if r.mappedNotation() {
+			return true
+		}
+	}
+	for _, r := range p.deny {
+		if r.mappedNotation() {
+			return true
+		}
+	}
+	return false
+}
+
+// verdict: mustDeny != "" when the statement forbids the request under every
+// reading the statement leaves open (the clause is returned); mustAllow when
+// it permits the request under every reading. Both false: not judged.
+func (p *refPolicy) verdict(scheme, host string, addrs []addr) (mustDeny string, mustAllow bool) {
+	strict := p.decide(scheme, host, addrs, false)
+	if !p.mapped {
+		return strict, strict == ""
+	}
+	wide := p.decide(scheme, host, addrs, true)
+	switch {
+	case strict == "" && wide == "":
+		return "", true
+	case strict != "" && wide != "":
+		if wide == reasonDenyMapped {
+			return wide, false
+		}
+		return strict, false
+	}
+	return "", false
 }
